@@ -142,11 +142,11 @@ def prop(ctx, case):
     if not sol1:
         ctx.event("infeasible_or_unknown")
         return
-    if getattr(h1, "unknown_seen", False) or getattr(h1, "cut_short", False):
-        # z3 gave up, or the real clock ended the run that was "allowed to finish" (loaded machine)
+    if getattr(h1, "unknown_seen", False):
         ctx.event("z3_unknown_during_optimisation")
         ctx.inconclusive += 1
         return
+    cut_short = getattr(h1, "cut_short", False)  # the real clock ended the run that was "allowed to finish" (loaded machine)
     from .c15 import classify
     # the built-in optimiser is only compared inside the linear, array- and quantifier-free fragment: outside it
     # z3.Optimize answers 'sat' with models that are not optimal (observed with polynomial costs, modulo
@@ -165,6 +165,11 @@ def prop(ctx, case):
     bad = vd1.bad(VALID_FAMILIES)
     if bad:
         viol("optimal_schedule_invalid", engine.summarize_bad(bad))
+        return
+    if cut_short:
+        # an early stop: the schedule is valid and the best found so far (judged above); its optimality is not judged
+        ctx.event("optimisation_cut_short_by_the_real_clock")
+        ctx.inconclusive += 1
         return
     # (b) re-ask on a fresh solver
     sess = probe.Session(spec, seed + 1, {"optimizer": "incremental"})
